@@ -90,12 +90,17 @@ func c12Classify(x int, boot []byte, size, start, bps int64) {
 	if ts16 == 0 {
 		total = ts32
 	}
-	rootSecs := (rootEnt*32 + bytesPerSec - 1) / bytesPerSec
+	vp.Assert(bytesPerSec == 512, "FAT12/FAT16 volumes of this library have 512-byte sectors")
+	rootSecs := (rootEnt*32 + 511) >> 9
 	dataSecs := total - (reserved + nfats*spf16 + rootSecs)
 	vp.Assert(dataSecs >= 0, "boot sector, FATs and root directory fit in the recorded volume (the cluster count is defined)")
-	vp.Assert(spc >= 1, "sectors per cluster >= 1")
-	clusters := dataSecs / spc
-	vp.Assert(total*bytesPerSec <= size, "the recorded volume fits the range")
+	// clusters = dataSecs / spc; spc must be a power of two, so divide by shifting (cheap for the solver)
+	clusters := int64(-1)
+	for k := uint(0); k < 8; k++ {
+		clusters = vp.IteI64(spc == 1<<k, dataSecs>>k, clusters)
+	}
+	vp.Assert(clusters >= 0, "sectors per cluster is a power of two in 1..128")
+	vp.Assert(total<<9 <= size, "the recorded volume fits the range")
 
 	// 2. fat16.Read
 	rd.reset()
